@@ -38,12 +38,22 @@ fn c10_history(cfg_id: u8, window: usize, arrivals: usize) {
     vtime::set_now(vtime::Instant { secs: 1_000, nanos: 0 });
     let mut dropped = 0;
     let mut kept = 0;
+    // reference ring of the retained (usable) intervals, whole seconds => every float operation on them is exact
+    let mut ring = [0u64; 4];
     let mut i = 0;
     while i < arrivals {
-        if i > 0 { let gap = any_s(3 * cfg.max_interval.as_secs()); if gap > cfg.max_interval { dropped += 1; } else { kept += 1; } advance(gap); }
+        if i > 0 {
+            let gap = any_s(3 * cfg.max_interval.as_secs());
+            if gap > cfg.max_interval { dropped += 1; } else { ring[kept % window] = gap.as_secs(); kept += 1; }
+            advance(gap);
+        }
         w.report_heartbeat();
         i += 1;
     }
+    let mut expect_sum = 0u64;
+    let mut j = 0;
+    while j < window { if j < kept { expect_sum += ring[j]; } j += 1; }
+    assert!(w.intervals.sum() == expect_sum as f64, "C10/C11: the windowed sum is not the sum of the retained intervals (an evicted or dropped interval still counts, or a retained one is missing)");
     let silence = any_s(40 * cfg.max_interval.as_secs() + 40 * cfg.initial_interval.as_secs());
     advance(silence);
     let usable = w.intervals.len();
